@@ -4,5 +4,5 @@
 import sys
 sys.path[:0] = ['/repo' + "/pulser-core", '/repo' + "/pulser-simulation", "/verif"]
 from symx.replay import replay
-sys.exit(replay(check='checks.c13', kernel='history', shape={'device': 'virt', 'k': 4, 'first': 0},
-                assignment={'op1': 12, 'op2': 15, 'op3': 24}, label='typestate:VAR_EOM'))
+sys.exit(replay(check='checks.c13', kernel='history', shape={'device': 'virt', 'k': 2, 'first': 15, 'prefix': ['D_g', 'EOM_on']},
+                assignment={'op3': 24}, label='typestate:VAR_EOM'))
